@@ -187,6 +187,18 @@ func (x *xgen) seq(nt, depth int, guard bool) *XExpr {
 	for i := 0; i < n; i++ {
 		s.Sub = append(s.Sub, x.element(nt, depth))
 	}
+	if x.opt.FixWS && x.r.Intn(4) == 0 {
+		// end the sequence with a nullable nonterminal (trailing empty child, trimmed by fixWhitespace)
+		var cands []int
+		for i, e := range x.emptyNT {
+			if e {
+				cands = append(cands, i)
+			}
+		}
+		if len(cands) > 0 {
+			s.Sub = append(s.Sub, &XExpr{Kind: XNonterm, Sym: cands[x.r.Intn(len(cands))]})
+		}
+	}
 	if !x.opt.FixWS && !x.g.tightEnd(s) {
 		s.Sub = append(s.Sub, x.term())
 	}
@@ -276,7 +288,7 @@ func RandXGrammar(r *rand.Rand, opt XGenOptions) *XGrammar {
 	// decide structurally which nonterminals get an empty rule (never the first one)
 	x.emptyNT = make([]bool, nN)
 	for i := 1; i < nN; i++ {
-		if r.Intn(5) == 0 {
+		if r.Intn(3) == 0 {
 			x.emptyNT[i] = true
 			g.Nonterms[i].Rules = append(g.Nonterms[i].Rules, &XRule{Body: &XExpr{Kind: XSeq}})
 		}
@@ -305,7 +317,7 @@ func RandXGrammar(r *rand.Rand, opt XGenOptions) *XGrammar {
 			if len(ru.Body.Sub) == 0 && !opt.NoArrows && r.Intn(2) == 0 {
 				ru.Arrow = x.newType()
 			}
-			if len(ru.Body.Sub) == 0 && r.Intn(2) == 0 {
+			if len(ru.Body.Sub) == 0 && r.Intn(3) > 0 {
 				// a nonterminal that is empty only through an alternative carrying a semantic action
 				ru.Action = fmt.Sprintf("{ vlog(\"empty %s\") }", n.Name)
 			}
